@@ -204,7 +204,7 @@ class Side:
             pass
 
 
-SDK_ALLOW = {"qblock", "qubit", "gate", "rot", "measure", "array", "loop", "if", "add", "flush", "empty-body"}
+SDK_ALLOW = {"qblock", "qubit", "gate", "rot", "measure", "array", "loop", "loop-start-step", "if", "add", "flush", "empty-body"}
 
 
 def run_sdk(ch: Choices, opts: Dict[str, Any], calm: bool) -> Dict[str, Any]:
